@@ -43,6 +43,7 @@ type sqlRoots struct {
 	runs []*e3Run
 	mu   sync.Mutex
 	ctx  map[string]*rootCtx
+	peel bool // peel loops in the lexer roots
 }
 
 func (sr *sqlRoots) setCtx(name string, c *rootCtx) {
@@ -279,6 +280,7 @@ func (sr *sqlRoots) runAll(extra func(name string, hooks *absint.Hooks)) {
 			var pos0, length absint.Lin
 			hooks := absint.Hooks{}
 			cfg := sr.config(hooks)
+			cfg.Peel = sr.peel
 			name := "lexer:" + tgt.Name()
 			setup := func(e *absint.Engine, st *absint.State, fr *absint.Frame) {
 				S, in := env.sqlStateSetup(e, st, fr, tgt.Params[0])
